@@ -68,3 +68,76 @@ theorem foldl_minus_eq (l xs : List Nat) :
     exact Bool.and_comm _ _
 
 end FpgoVerif.C18
+
+namespace FpgoVerif.C18
+
+/-- every existing backing array is still there with the same content -/
+def Grows (st st' : Store) : Prop := st.length ≤ st'.length ∧ ∀ a, a < st.length → st'[a]? = st[a]?
+
+theorem Grows.refl (st : Store) : Grows st st := ⟨Nat.le_refl _, fun _ _ => rfl⟩
+
+theorem Grows.trans {a b c : Store} (h1 : Grows a b) (h2 : Grows b c) : Grows a c :=
+  ⟨Nat.le_trans h1.1 h2.1, fun x hx => by rw [h2.2 x (Nat.lt_of_lt_of_le hx h1.1), h1.2 x hx]⟩
+
+theorem Grows.read {st st' : Store} (h : Grows st st') (sl : Sl) (hs : sl.arr < st.length) :
+    readS st' sl = readS st sl := by
+  unfold readS; rw [h.2 sl.arr hs]
+
+theorem allocS_grows (st : Store) (c : List Nat) (n : Nat) : Grows st (allocS st c n).1 :=
+  ⟨by simp [allocS], fun a ha => by simp [allocS, List.getElem?_append_left ha]⟩
+
+theorem readS_allocS (st : Store) (c : List Nat) (n : Nat) : readS (allocS st c n).1 (allocS st c n).2 = c.take n := by
+  simp [readS, allocS]
+
+theorem appendS_spec (st : Store) (sl : Sl) (x : Nat) :
+    Grows st (appendS st sl x).1 ∧ readS (appendS st sl x).1 (appendS st sl x).2 = append (readS st sl) x := by
+  refine ⟨allocS_grows _ _ _, ?_⟩
+  unfold appendS
+  rw [readS_allocS]
+  unfold append
+  exact List.take_of_length_le (by simp)
+
+theorem minusS_spec (st : Store) (sl : Sl) (x : Nat) :
+    Grows st (minusS st sl x).1 ∧ readS (minusS st sl x).1 (minusS st sl x).2 = minus (readS st sl) [x] := by
+  refine ⟨allocS_grows _ _ _, ?_⟩
+  unfold minusS
+  simp only []
+  rw [readS_allocS]
+  simp
+
+theorem addS_spec (st : Store) (sl : Sl) (xs : List Nat) :
+    Grows st (addInterceptorS st sl xs).1 ∧
+    readS (addInterceptorS st sl xs).1 (addInterceptorS st sl xs).2 = xs.foldl append (readS st sl) := by
+  unfold addInterceptorS
+  induction xs generalizing st sl with
+  | nil => exact ⟨Grows.refl st, rfl⟩
+  | cons x xs ih =>
+    simp only [List.foldl_cons]
+    obtain ⟨g1, r1⟩ := appendS_spec st sl x
+    obtain ⟨g2, r2⟩ := ih (appendS st sl x).1 (appendS st sl x).2
+    exact ⟨g1.trans g2, by rw [r2, r1]⟩
+
+theorem removeS_spec (st : Store) (sl : Sl) (xs : List Nat) :
+    Grows st (removeInterceptorS st sl xs).1 ∧
+    readS (removeInterceptorS st sl xs).1 (removeInterceptorS st sl xs).2 =
+      xs.foldl (fun l x => minus l [x]) (readS st sl) := by
+  unfold removeInterceptorS
+  induction xs generalizing st sl with
+  | nil => exact ⟨Grows.refl st, rfl⟩
+  | cons x xs ih =>
+    simp only [List.foldl_cons]
+    obtain ⟨g1, r1⟩ := minusS_spec st sl x
+    obtain ⟨g2, r2⟩ := ih (minusS st sl x).1 (minusS st sl x).2
+    exact ⟨g1.trans g2, by rw [r2, r1]⟩
+
+theorem applyOpS_spec (a : Store × Sl) (op : Op) :
+    Grows a.1 (applyOpS a op).1 ∧
+    readS (applyOpS a op).1 (applyOpS a op).2 = (applyOp ⟨readS a.1 a.2, 0, none, none⟩ op).interceptors := by
+  cases op with
+  | add xs => exact addS_spec a.1 a.2 xs
+  | rem xs => exact removeS_spec a.1 a.2 xs
+  | clear =>
+    refine ⟨allocS_grows _ _ _, ?_⟩
+    simp [applyOpS, clearInterceptorS, readS_allocS, applyOp, clearInterceptor]
+
+end FpgoVerif.C18
